@@ -40,6 +40,10 @@ def main(ctx):
                 dict(method='sad', subpix=2, H=4, W=7, dmin=-3, dmax=3)]
     for kw in sub:
         J.append({'mod': MOD, 'fn': 'subpix_volume', 'mode': 'sym', 'args': dict(kw, cap=cap)})
+    # ZNCC: structure only (shape, type of measure, NaN pattern, finite elsewhere); the value is outside the claim
+    J.append({'mod': MOD, 'fn': 'zncc_volume', 'mode': 'sym', 'args': dict(H=3, W=4, dmin=-1, dmax=1, cap=cap)})
+    if not ctx.quick:
+        J.append({'mod': MOD, 'fn': 'zncc_volume', 'mode': 'sym', 'args': dict(H=3, W=5, dmin=-2, dmax=1, cap=cap)})
     cexs = []
     for r in ctx.run_jobs(J, timeout=1200 if ctx.quick else 5400):
         cexs += ctx.absorb(r)
@@ -51,7 +55,7 @@ def main(ctx):
                               'masked, disparity outside the pixel interval); SAD, SSD, census; scalar intervals and per-pixel grids; band selection; '
                               'column coordinates not starting at 0; sub-pixel precision 2 and 4 (no masks): cost at k + i/subpix == measure against the right image '
                               'linearly interpolated between columns (scipy zoom order 1 = the linear map read off the real zoom on unit vectors)')
-    ctx.assumptions += ['C02: ZNCC values, masks combined with sub-pixel precision, subpix > 4 and step != 1 are outside the harness']
+    ctx.assumptions += ['C02: ZNCC: only shape, type of measure / maximal cost, NaN pattern and finiteness are decided (the value is a degree-6 polynomial identity with square roots that z3 does not decide within the caps)', 'C02: masks combined with sub-pixel precision, subpix > 4 and step != 1 are outside the harness']
 
 
 def replay(body):
